@@ -728,7 +728,8 @@ const nAlter = 5
 func (p *producer) alter(b *mblock, how int) *mblock {
 	c := proto.Clone(b.blk).(*types.Block)
 	m := &mblock{name: b.name + "~" + fmt.Sprint(how), parent: b.parent, kind: b.kind, altered: true, pre: b.pre, state: b.state,
-		nonces: b.nonces, no: b.no, hash: b.hash, valid: false, ts: b.ts, events: b.events, iops: b.iops, verBad: b.verBad}
+		nonces: b.nonces, no: b.no, hash: b.hash, valid: false, ts: b.ts, events: b.events, iops: b.iops, verBad: b.verBad,
+		early: b.early, sigBad: b.sigBad} // what is wrong with the original stays wrong with the copy
 	m.txs = append([]*types.Tx{}, b.txs...)
 	m.res = nil
 	switch how {
